@@ -5,18 +5,19 @@ this property applied; the code before those commits is kept in `NV/C17/Witness.
   (a) the staleness decision of `load_binary` (`check_times`, magic / driver_id / config_id, include list, name check,
       inherited sources and inherited binaries, "inherited program not loaded yet") and the retry loop of `load_object`
       around it, over a file system of modification times;
-  (b) `sort_function_table`: permutation table by sorting, inverse table, the in-place sort by n-1 swaps driven by
+  (b) `sort_function_table`: permutation table by `quickSort`, inverse table, the in-place sort by n-1 swaps driven by
       `sorttmp`/`invtmp`, the `f_index` remap loops of the COMPRESS_FUNCTION_TABLES build, the `type_start` copy;
   (c) `locate_out` / `locate_in`;
   (d) `patch_out` / `patch_in` of string switch tables.
 
 C arrays are `Arr` = size + total function; every C access is an explicit bounds-checked `read`/`write` that yields
 `none` (= the C program would touch memory outside the array: crash) when the index is out of range.
-`quickSort` is modelled by its contract: the result is the sorted permutation (Lean's `List.mergeSort` with the C
-comparator); with a comparator that is a total order on distinct keys the result is unique, so the choice of algorithm is
-not observable.
+`quickSort` is modelled from its code (NV/C17/QSort.lean mirrors lib/misc/qsort.c: median swap, partition loop, the two
+recursive calls); its contract — stays inside the array, permutation, sorted for a strict order — is proved in
+NV/C17/QSortLemmas.lean and used by the theorems below.
 -/
 import NV.Gen.C17
+import NV.C17.QSort
 
 namespace NV.C17
 
@@ -135,16 +136,17 @@ structure FunTabs (α τ : Type) where
   ct : CT
   typeStart : Option (List τ)    -- none: prog->type_start == 0
 
-/-- `quickSort (temp, num, sizeof (int), compare_compiler_funcs)` on temp = 0..num-1 -/
-def sortPerm {α} (le : α → α → Bool) [Inhabited α] (table : List α) : List Nat :=
-  (List.range table.length).mergeSort (fun x y => le (table.getD x default) (table.getD y default))
+/-- `for (i = 0; i < num; i++) temp[i] = i; comp_prog = prog;
+    quickSort (temp, num, sizeof (int), compare_compiler_funcs)`; `lt x y` = the comparison answers < 0 -/
+def sortPerm {α} (lt : α → α → Bool) [Inhabited α] (table : List α) : Option (List Nat) :=
+  quickSortL (fun x y => lt (table.getD x default) (table.getD y default)) (List.range table.length)
 
-def sortFunctionTable {α τ} [Inhabited α] [Inhabited τ] (le : α → α → Bool) (p : FunTabs α τ) :
+def sortFunctionTable {α τ} [Inhabited α] [Inhabited τ] (lt : α → α → Bool) (p : FunTabs α τ) :
     Option (FunTabs α τ) := do
   let num := p.table.length
   if num = 0 then pure p
   else do
-    let temp := Arr.ofList (sortPerm le p.table)
+    let temp := Arr.ofList (← sortPerm lt p.table)
     let inverse ← mkInverse temp
     let tab ← swapLoop (Arr.ofList p.table) temp inverse
     let slots ← visitedSlots p.ct (Arr.ofList p.flags) p.flags.length
@@ -168,6 +170,13 @@ def cfLe (a b : CF) : Bool :=
   if a.hash then b.hash
   else if b.hash then true
   else a.key ≤ b.key
+
+/-- `compare_compiler_funcs (x, y) < 0` (what qSort asks): `n1[0] == '#'` → 0 or 1, never negative;
+    `n2[0] == '#'` → -1; otherwise `n1 < n2` -/
+def cfLt (a b : CF) : Bool :=
+  if a.hash then false
+  else if b.hash then true
+  else a.key < b.key
 
 /-! ## (c) locate_out / locate_in -/
 
@@ -241,13 +250,17 @@ def patchOutTable (strings : List Int) (es : List SwEntry) : Option (List SwEntr
 /-- `str_case_cmp (a, b) <= 0`: the keys compared as `intptr_t` -/
 def swLe (a b : SwEntry) : Bool := a.key ≤ b.key
 
-/-- patch_in on one table: indices become the addresses of the re-created strings, then the table is sorted -/
+/-- `str_case_cmp (a, b) < 0` (what qSort asks) -/
+def swLt (a b : SwEntry) : Bool := a.key < b.key
+
+/-- patch_in on one table: indices become the addresses of the re-created strings, then
+    `quickSort (&p[start], (break_addr - start) / SWITCH_CASE_SIZE, SWITCH_CASE_SIZE, str_case_cmp)` -/
 def patchInTable (strings : List Int) (es : List SwEntry) : Option (List SwEntry) := do
   let es' ← es.mapM (fun e =>
     if e.key = -1 then some { e with key := 0 }
     else if e.key < 0 then none
     else (strings[e.key.toNat]?).map (fun p => { e with key := p }))
-  pure (es'.mergeSort swLe)
+  quickSortL swLt es'
 
 /-! ## (a) the staleness decision -/
 
